@@ -77,6 +77,37 @@ def trigger_event_rules(A, fl, rule, cls_key='server'):
                     behaviour='a connect handler that raises lets the client in / an exception in '
                               'a message handler is turned into a value')
     A.floor(rule, '%s handler call sites in _trigger_event' % fl['name'], n_calls, 2)
+    # the legacy one-argument retry exists for the disconnect event only
+    n_retry = 0
+    nargs = 2 if cls_key == 'server' else 1
+    for n in ast.walk(fi.node):
+        if _is_handler_call(n):
+            c = unawait(n)
+            if not any(isinstance(a, ast.Starred) for a in c.args):
+                n_retry += 1
+                cur, ok = n, False
+                while cur in pm:
+                    par = pm[cur]
+                    if isinstance(par, ast.If) and any(cur is st or _contains(st, cur)
+                                                       for st in par.body):
+                        t = par.test
+                        conj = t.values if isinstance(t, ast.BoolOp) and \
+                            isinstance(t.op, ast.And) else [t]
+                        texts = {txt(x) for x in conj}
+                        if "event == 'disconnect'" in texts and \
+                                ('len(args) == %d' % nargs) in texts:
+                            ok = True
+                            break
+                    if isinstance(par, (ast.FunctionDef, ast.AsyncFunctionDef)):
+                        break
+                    cur = par
+                A.check(ok, rule + '.legacy-retry', "%s: the handler is re-invoked without the "
+                        "reason argument only for a 'disconnect' event whose handler raised "
+                        'TypeError' % fl['name'], A.site(fi, n),
+                        key='%s-legacy-retry-guard' % fl['name'], detail=txt(n),
+                        behaviour='a message handler that raises TypeError is called a second '
+                                  'time (with the payload dropped): the event fires twice')
+    A.floor(rule, '%s legacy retry call sites' % fl['name'], n_retry, 1)
     # dispatch mode
     sock = A.model.cls(fl[cls_key])
     en = A.enum(follow_handlers=False)
@@ -548,7 +579,8 @@ def admission_rules(A, fl, rule, parts=('defs', 'sinks', 'inert', 'origin', 'res
                 # JSONP index
                 jbad = [i for i, e in enumerate(v.ev[:si]) if e.kind == 'handler' and
                         'ValueError' in (e.cls or '')]
-                A.check(("'j' in query", False) in ga_before or not jbad, rule + '.jsonp-index',
+                A.check(("'j' in query", False) in ga_before or
+                        (("'j' in query", True) in ga_before and not jbad), rule + '.jsonp-index',
                         '%s: with a JSONP request only a numeric index is admitted' % name,
                         A.site(fi, v.node(si)), key='%s-admit-jsonp' % name, detail=v.describe(60),
                         behaviour='a non-numeric JSONP index is admitted')
@@ -706,6 +738,16 @@ def constructor_rules(A, rule, fresh_rule=None):
             d = unawait(p.value)
             okd = isinstance(d, ast.Dict) and all(isinstance(k, ast.Constant) for k in d.keys)
             fields = {k.value: v for k, v in zip(d.keys, d.values)} if okd else {}
+            if name == '_ok' and okd:
+                ga_ = set(PV(p).guard_atoms())
+                is_payload = 'payload.Payload(' in txt(fields.get('response'))
+                A.check((('packets is None', False) in ga_) if is_payload else
+                        (('packets is None', True) in ga_), rule + '.ok-body',
+                        '_ok answers with the encoded payload whenever a packet list is given '
+                        '(even an empty one) and with plain OK only when none is given',
+                        A.site(fi), key='ctor-ok-guard', detail=sorted(map(str, ga_)),
+                        behaviour='an empty poll result is answered with the text OK instead of '
+                                  'an empty payload (or JSONP wrapper)')
             A.check(okd and set(fields) == {'status', 'headers', 'response'}, rule + '.shape',
                     '%s returns a dict with status, headers, response' % name, A.site(fi),
                     key='ctor-shape-%s' % name, detail=txt(d))
@@ -840,6 +882,24 @@ def response_rules(A, fl, rule, parts=('one-response', 'errors', 'reap')):
                         behaviour='the request never completes: disconnect() waits in '
                                   'queue.join() for a poll that cannot come')
         if 'reap' in parts:
+            # converse: a session is taken out of the table by a request only if it is closed
+            # (or was just closed by the protocol-error branch)
+            for i, e in enumerate(v.ev):
+                rm = (e.kind == 'del' and txt(e.target) == 'self.sockets[sid]') or \
+                    (e.kind == 'call' and txt(e.expr).startswith('self.sockets.pop(sid'))
+                if not rm:
+                    continue
+                gb = set(atom(x.expr, x.pol) for x in v.ev[:i] if x.kind == 'guard')
+                closed_before = ('self.sockets[sid].closed', True) in gb or \
+                    ('socket.closed', True) in gb
+                aborted = any(x.kind == 'call' and txt(x.expr).startswith('socket.close(')
+                              for x in v.ev[:i])
+                A.check(closed_before or aborted, rule + '.reap-only-closed',
+                        '%s: a request removes a session from the table only if that session is '
+                        'closed' % name, A.site(fi, e.node), key='%s-reap-live-session' % name,
+                        detail=v.describe(70),
+                        behaviour='a live polling session is orphaned (e.g. after a failed '
+                                  'upgrade attempt): its queued messages are never delivered')
             g = ('self.sockets[sid].closed', True) in ga and ('sid in self.sockets', True) in ga
             if g and any(c for c in v.calls('socket.handle_get_request(___)')):
                 n_reap += 1
@@ -1332,6 +1392,20 @@ def disconnect_rules(A, fl, rule, block_rule=None):
                         behaviour='RuntimeError: dictionary changed size during iteration')
     A.floor(rule, '%s disconnect(sid) paths' % name, n_one, 1)
     A.floor(rule, '%s disconnect() paths' % name, n_all, 1)
+    # asyncio.wait() refuses an empty collection (ValueError): the all-sessions branch must not
+    # call it when there is no session
+    for p in ps:
+        v = PV(p)
+        for i, c in v.calls('asyncio.wait(_x)') + v.calls('asyncio.wait(_x, ___)'):
+            gb = set(atom(e.expr, e.pol) for e in v.ev[:i] if e.kind == 'guard')
+            nonempty = ('self.sockets', True) in gb or ('len(self.sockets) == 0', False) in gb or \
+                ('+len(self.sockets) > 0', True) in gb or ('len(self.sockets)', True) in gb
+            A.check(nonempty, rule + '.api-total', '%s disconnect() with no session at all '
+                    'returns normally (asyncio.wait is not handed an empty collection)' % name,
+                    A.site(fi, v.node(i)), key='%s-disconnect-empty-wait' % name,
+                    detail=txt(v.ev[i].expr),
+                    behaviour="AsyncServer.disconnect() on a server without sessions raises "
+                              "ValueError('Set of Tasks/Futures is empty.')")
 
 
 def service_task_rules(A, fl, rule):
@@ -1441,8 +1515,15 @@ def generate_id_rules(A, rule):
                         behaviour="ids contain '+' or '/' (not URL-safe) or two different ids "
                                   'collapse to the same text')
                 return
-            A.undecided(rule + '.template', 'generate_id matches encode(random(n) || counter(k '
-                        'bytes, big-endian))', site, txt(rv))
+            if 'b64encode' in txt(rv):
+                A.violated(rule + '.template', 'the id is the url-safe base64 encoding of '
+                           'random(n) || counter(k bytes, big-endian) as a whole', site,
+                           key='id-template', detail=txt(rv),
+                           behaviour='ids are not 20 characters over [A-Za-z0-9_-], or random '
+                                     'and counter parts are mixed')
+            else:
+                A.undecided(rule + '.template', 'generate_id matches encode(random(n) || '
+                            'counter(k bytes, big-endian))', site, txt(rv))
             return
         rand = unawait(m1['rand'])
         mr = match('secrets.token_bytes(_n)', rand) or match('os.urandom(_n)', rand)
@@ -1517,6 +1598,20 @@ def generate_id_rules(A, rule):
     A.check(v_ is not None and match('0', v_) is not None, rule + '.counter',
             'the counter starts at 0 as a class attribute and becomes per-instance on first write',
             'src/engineio/base_server.py', key='id-counter-init', detail=txt(v_))
+    # WHO-MAY: the counter is written by generate_id() only
+    for f in A.model.all_funcs():
+        if f.module.name.startswith('async_drivers'):
+            continue
+        for n in own_nodes(f):
+            tg = n.targets if isinstance(n, ast.Assign) else \
+                [n.target] if isinstance(n, ast.AugAssign) else []
+            for t in tg:
+                if isinstance(t, ast.Attribute) and t.attr == 'sequence_number':
+                    A.check(f.qualname == fi.qualname, rule + '.counter-owner',
+                            'the issue counter is advanced by generate_id() only (%s)'
+                            % f.qualname, A.site(f, n), key='id-counter-writer:%s' % f.qualname,
+                            detail=ast.unparse(n),
+                            behaviour='a counter value is issued twice within one window')
     # WHO-MAY: every key stored in self.sockets comes from generate_id()
     for fl in FLAVOURS:
         for f in A.model.all_funcs():
@@ -1746,6 +1841,61 @@ def asgi_rules(A, rule, buffering_rule=None):
         _asgi_buffering(A, buffering_rule)
 
 
+def asgi_env_rules(A, rule):
+    """The ASGI environ carries only what the request said about its origin: Host and
+    X-Forwarded-* come from the request headers, never from the server side of the scope."""
+    tr = A.func('async_drivers.asgi.translate_request')
+    for n in ast.walk(tr.node):
+        if isinstance(n, ast.Dict):
+            for k in n.keys:
+                if isinstance(k, ast.Constant) and isinstance(k.value, str) and \
+                        k.value.startswith('HTTP_'):
+                    A.violated(rule + '.host-from-request', 'ASGI: HTTP_* environ entries come '
+                               'from request headers only', A.site(tr, n),
+                               key='asgi-env-http-literal:%s' % k.value, detail=k.value)
+        if isinstance(n, (ast.Assign, ast.AugAssign)):
+            tg = n.targets if isinstance(n, ast.Assign) else [n.target]
+            for t in tg:
+                if isinstance(t, ast.Subscript) and txt(t.value) == 'environ' and \
+                        isinstance(t.slice, ast.Constant) and \
+                        str(t.slice.value).startswith('HTTP_'):
+                    A.violated(rule + '.host-from-request', "ASGI: environ['%s'] is never "
+                               'synthesised by the driver (the default origin policy compares '
+                               'the Origin with the Host the client sent)' % t.slice.value,
+                               A.site(tr, n), key='asgi-env-synth:%s' % t.slice.value,
+                               detail=ast.unparse(n),
+                               behaviour='a request without Host header is matched against a '
+                                         'server-side name: a foreign Origin is accepted')
+        if isinstance(n, ast.Call) and match("environ.setdefault(_k, ___)", n) is not None:
+            A.violated(rule + '.host-from-request', 'ASGI: no default for request headers',
+                       A.site(tr, n), key='asgi-env-setdefault', detail=ast.unparse(n))
+    A.ok(rule + '.host-from-request', 'ASGI translate_request derives HTTP_* entries from the '
+         'header loop only', A.site(tr))
+
+
+def asgi_read_rule(A, rule):
+    """AwaitablePayload.read(length) returns at most `length` bytes (all only for None)."""
+    tr = A.func('async_drivers.asgi.translate_request')
+    cls = tr.nested_classes.get('AwaitablePayload')
+    if cls is None or 'read' not in cls.methods:
+        raise AnalysisError('%s: asgi AwaitablePayload.read vanished' % rule)
+    rd = cls.methods['read']
+    ps = [p for p in A.paths(A.enum(follow_handlers=False), rd, cls) if p.outcome == 'return']
+    A.floor(rule, 'asgi AwaitablePayload.read paths', len(ps), 2)
+    for p in ps:
+        v = PV(p)
+        ga = set(v.guard_atoms())
+        if txt(p.value) == 'self.payload':
+            A.check(('length is None', True) in ga, rule + '.bounded-read', 'ASGI: the whole '
+                    'buffered body is returned only for read() without a length', A.site(rd),
+                    key='asgi-read-all', detail=v.describe(),
+                    behaviour='read(0) (absent Content-Length) returns the whole oversize body')
+        else:
+            A.check(txt(p.value) == 'self.payload[:length]' and ('length is None', False) in ga,
+                    rule + '.bounded-read', 'ASGI: read(length) returns at most length bytes',
+                    A.site(rd), key='asgi-read-slice', detail=v.describe())
+
+
 def _asgi_buffering(A, buffering_rule):
     # body accumulation before the size gate (C14.5)
     tr = A.func('async_drivers.asgi.translate_request')
@@ -1875,3 +2025,56 @@ def upgrade_refusal_harmless_rule(A, fl, rule):
                 behaviour='a second upgrade attempt tears down the established WebSocket '
                           'session (disconnect event, CLOSE, sid removed)')
     A.floor(rule, '%s GET paths where the upgrade raises OSError' % name, n, 1)
+
+
+def driver_response_rules(A, rule):
+    """Every asyncio driver hands status, *all* headers and the body to its framework."""
+    for mod in ('aiohttp', 'sanic', 'tornado'):
+        mi = A.model.modules.get('async_drivers.' + mod)
+        if mi is None or 'make_response' not in mi.functions:
+            raise AnalysisError('%s: driver %s has no make_response' % (rule, mod))
+        fi = mi.functions['make_response']
+        A.counters['functions'].add(fi.qualname)
+        ps = [p for p in A.paths(A.enum(loop_bound=1, follow_handlers=False), fi)
+              if p.outcome == 'return']
+        A.floor(rule, '%s.make_response paths' % mod, len(ps), 1)
+        for p in ps:
+            v = PV(p)
+            its = [i for i in v.kinds('iter') if v.ev[i].pol]
+            if mod == 'aiohttp':
+                c = unawait(p.value)
+                kw = {k.arg: txt(k.value) for k in c.keywords} if isinstance(c, ast.Call) else {}
+                A.check(kw.get('headers') == 'headers' and kw.get('body') == 'payload' and
+                        kw.get('status') == 'int(status.split()[0])', rule + '.driver-response',
+                        'aiohttp driver: status, all headers and the body are passed through',
+                        A.site(fi), key='driver-aiohttp-response', detail=txt(p.value),
+                        behaviour='Content-Encoding (or another header) set by the server never '
+                                  'reaches the client')
+                continue
+            for i in its:
+                A.check(txt(v.ev[i].expr) == 'headers', rule + '.driver-response',
+                        '%s driver iterates the header list itself' % mod, A.site(fi),
+                        key='driver-%s-iter' % mod, detail=txt(v.ev[i].expr))
+            el = '_elem(headers, 0)'
+            guards = [(a, pl) for a, pl in v.guard_atoms()]
+            extra = [a for a, pl in guards if el in a and
+                     a != "%s[0].lower() == 'content-type'" % el]
+            if mod == 'tornado':
+                extra = [a for a, pl in guards if el in a]
+                if its:
+                    sets = v.calls("environ['tornado.handler'].set_header(%s[0], %s[1])"
+                                   % (el, el)) + v.calls(
+                        "tornado_handler.set_header(%s[0], %s[1])" % (el, el))
+                    A.check(bool(sets), rule + '.driver-response', 'tornado driver sets every '
+                            'header', A.site(fi), key='driver-tornado-set', detail=v.describe())
+            if mod == 'sanic' and its:
+                is_ct = ("%s[0].lower() == 'content-type'" % el, True) in guards
+                w = [val for i_, val in v.writes('{}[%s[0]]' % el)]
+                A.check(is_ct or w == ['%s[1]' % el], rule + '.driver-response',
+                        'sanic driver copies every header other than Content-Type',
+                        A.site(fi), key='driver-sanic-copy', detail=v.describe())
+            A.check(not extra, rule + '.driver-response', '%s driver: no header is filtered out '
+                    '(the only special case is Content-Type)' % mod, A.site(fi),
+                    key='driver-%s-filter' % mod, detail=extra,
+                    behaviour='a compressed body is delivered without its Content-Encoding '
+                              'header')
